@@ -394,12 +394,15 @@ def gen_sim(r: Any) -> dict:
     steps = []
     for _ in range(r.randrange(3, 9)):
         x = r.random()
-        if x < 0.6:
+        if x < 0.5:
             steps.append([r.choice(['ns+', 'ns-']), r.choice(SIM_NS_POOL)])
-        else:
+        elif x < 0.75:
             steps.append([r.choice(['kind+', 'kind-']), r.choice(['ct', 'nk'])])
+        else:
+            steps.append(['end', r.choice(['eof', 'connection', 'timeout'])])     # every open stream reconnects (no re-list)
+    # the version counter starts just below a power of ten: versions gain a digit while the streams are open
     return {'clusterwide': clusterwide, 'init_ns': r.sample(SIM_NS_POOL, r.randrange(0, 3)), 'init_kinds': r.sample(['ct', 'nk'], r.randrange(0, 3)),
-            'steps': steps}
+            'steps': steps, 'rv0': r.choice([100, 3, 5, 7, 8, 93, 95, 97, 98, 995, 997])}
 
 
 def run_sim(case: dict) -> list[dict]:
@@ -410,6 +413,7 @@ def run_sim(case: dict) -> list[dict]:
     present = {'k'} | set(case['init_kinds'])
     W = sim.World(kinds=[kinds[k] for k in sorted(present)])
     api = W.api
+    api.rv = int(case.get('rv0', 100))
     out: list[dict] = []
     try:
         for ns in case['init_ns']:
@@ -449,16 +453,56 @@ def run_sim(case: dict) -> list[dict]:
                 present.discard(x)
                 del api.kinds[kinds[x].key]
                 api.delete(fakeapi.CRD, None, f'{kinds[x].plural}.{kinds[x].group}')
+            elif a == 'end':
+                for st in api.open_streams():
+                    st.terminate(x)
             W.run_for(3)
             out.append(snap(step))
+        out[-1]['resume_violations'] = sim_resume_violations(api)
     finally:
         W.close()
+    return out
+
+
+def sim_resume_violations(api: Any) -> list[dict]:
+    """The harness's reading of "resumed from the latest version seen" on FakeAPI's own records: for every
+    (resource, namespace) the watch connections in the order they were opened; a connection that follows another one
+    without a LIST of that pair in between must start from the version of the LAST event delivered on the previous
+    connection (its own start version if it delivered nothing); after a LIST, from the LIST's version."""
+    watches = [i for i, e in enumerate(api.tracelog) if e['what'] == 'watch']
+    lists = [i for i, e in enumerate(api.tracelog) if e['what'] == 'list']
+    list_reqs = [q for q in api.requests if q.method == 'GET' and q.target is not None and q.target[2] is None
+                 and q.query.get('watch') != 'true' and q.status == 200]
+    if len(watches) != len(api.streams) or len(lists) != len(list_reqs):
+        raise RuntimeError('observation point missing: FakeAPI tracelog does not line up with its streams/requests')
+    seq: dict[tuple, list] = {}
+    for i, q in zip(lists, list_reqs):
+        seq.setdefault((q.target[0], q.target[1]), []).append((i, 'list', api.tracelog[i]['rv'], None))
+    for i, st in zip(watches, api.streams):
+        seq.setdefault((st.kind.key, st.namespace), []).append((i, 'watch', api.tracelog[i]['since'], st))
+    out = []
+    for pair, items in seq.items():
+        items.sort(key=lambda x: x[0])
+        latest: int | None = None
+        for _, what, v, st in items:
+            if what == 'list':
+                latest = v
+                continue
+            if latest is not None and v != latest:
+                out.append({'pair': [pair[0][2], pair[1]], 'since': v, 'latest_seen': latest})
+            if st.delivered:
+                latest = st.delivered[-1][0]
+            elif latest is None:
+                latest = v
     return out
 
 
 def monitor_sim(case: dict, snaps: list[dict]) -> tuple[list[dict], list[str]]:
     kinds = _sim_kinds()
     fails, corners = [], []
+    for v in (snaps[-1].get('resume_violations') or []) if snaps else []:
+        fails.append({'sig': 'sim-resume', 'what': 'a watch connection of the operator was (re)started from a version other than the latest one '
+                      'seen on the previous connection / listing', 'observed': v})
     for s in snaps:
         if s['operator'] != 'running':
             fails.append({'sig': 'operator-exited', 'what': 'the operator exited during the scenario', 'observed': s})
@@ -494,6 +538,9 @@ def sim_layer(ctx: fw.Ctx) -> None:
         ctx.count('sim', 'clusterwide' if case['clusterwide'] else 'namespaced')
         for c in corners:
             ctx.count('corner', c)
+        for st in case['steps']:
+            ctx.count('sim_steps', st[0] + (':' + st[1] if st[0] == 'end' else ''))
+        ctx.count('sim_rv0', str(case.get('rv0', 100)))
         for f in fails:
             ctx.fail(f['what'], {'layer': 'sim', **case}, observed=f['observed'], sig=f['sig'])
         if len([s for s in case['steps'] if s[0] in ('ns-', 'kind-')]) >= 1 and len(case['steps']) >= 3:
